@@ -338,6 +338,110 @@ def translate_spec(repo, spec):
     return outs, func.lineno, "; ".join(src)
 
 
+
+# ---------------------------------------------------------------------------------------------------------------
+# loop bodies: the dispatch loops of the schedulers (`pos = 0; for …: end = pos + n; …arr[pos:end]…; pos = end`)
+
+from translate.formulas import sl_expr   # noqa: E402  (natural-number arithmetic)
+
+LOOP_SPECS = [
+    dict(prefix="schedTell", file="ribs/schedulers/_scheduler.py", func="Scheduler.tell", counter="pos",
+         inputs={"n": ("n", "Nat")}, vars=[("pos", "Nat"), ("n", "Nat")], outputs={}),
+    dict(prefix="schedTellDqd", file="ribs/schedulers/_scheduler.py", func="Scheduler.tell_dqd", counter="pos",
+         inputs={"n": ("n", "Nat")}, vars=[("pos", "Nat"), ("n", "Nat")], outputs={}),
+    dict(prefix="banditTell", file="ribs/schedulers/_bandit_scheduler.py", func="BanditScheduler.tell", counter="pos",
+         inputs={"self._num_emitted[i]": ("n", "Nat"), "self._selection[i]": ("sel", "Nat"),
+                 "self._success[i]": ("suc", "Nat")},
+         counts={"np.count_nonzero": "cnt"},
+         vars=[("pos", "Nat"), ("n", "Nat"), ("sel", "Nat"), ("suc", "Nat"), ("cnt", "Nat")],
+         outputs={"Sel": "self._selection[i]", "Suc": "self._success[i]"}),
+]
+
+
+def loop_step(repo, spec):
+    """one iteration of a dispatch loop: the slice bounds every per-row array is cut with, the counter afterwards,
+    and the per-emitter counters it updates; returns ({output: (lean, 'Nat')}, line, digest)"""
+    tree = ast.parse(open(os.path.join(repo, spec["file"])).read())
+    func = find_function(tree, spec["func"])
+    ctr = spec["counter"]
+    loop, init = None, None
+    for prev, st in zip(func.body, func.body[1:]):
+        if isinstance(st, ast.For) and isinstance(prev, ast.Assign) and len(prev.targets) == 1 \
+                and ast.unparse(prev.targets[0]) == ctr:
+            loop, init = st, prev.value
+    if loop is None:
+        raise Untranslatable(f"no `{ctr} = …` directly followed by a for loop")
+    if loop.orelse:
+        raise Untranslatable("for … else")
+    e0, t0 = sl_expr(init, {})
+    if t0 not in ("Nat", "Lit"):
+        raise Untranslatable(f"initial value of {ctr} is not a natural number")
+    sym = {ctr: (ctr, "Nat")}
+    sym.update(spec["inputs"])
+    slices, src = [], []
+
+    def note_slices(node):
+        for sub in ast.walk(node):
+            if isinstance(sub, ast.Subscript) and isinstance(sub.slice, ast.Slice):
+                sl = sub.slice
+                if sl.step is not None or sl.lower is None or sl.upper is None:
+                    raise Untranslatable(f"slice {ast.unparse(sub)[:40]}")
+                lo, lt = sl_expr(sl.lower, sym)
+                hi, ht = sl_expr(sl.upper, sym)
+                if lt not in ("Nat", "Lit") or ht not in ("Nat", "Lit"):
+                    raise Untranslatable("slice bounds that are not natural numbers")
+                slices.append((lo, hi))
+
+    def value_of(node):
+        if isinstance(node, ast.Call) and call_name(node.func) in spec.get("counts", {}) and len(node.args) == 1:
+            note_slices(node.args[0])
+            if not (isinstance(node.args[0], ast.Subscript) and isinstance(node.args[0].slice, ast.Slice)):
+                raise Untranslatable("count over something that is not a slice of the batch")
+            return spec["counts"][call_name(node.func)], "Nat"
+        return sl_expr(node, sym)
+
+    for st in loop.body:
+        line = " ".join(ast.unparse(st).split())
+        if isinstance(st, ast.Assign) and len(st.targets) == 1 and isinstance(st.targets[0], ast.Name):
+            name = st.targets[0].id
+            vt = ast.unparse(st.value)
+            if vt in sym:
+                sym[name] = sym[vt]
+            else:
+                try:
+                    sym[name] = value_of(st.value)
+                except Untranslatable:
+                    sym.pop(name, None)              # not arithmetic (`emitter = self._emitter_pool[i]`): not tracked
+                    continue
+            src.append(line[:80])
+        elif isinstance(st, ast.AugAssign) and isinstance(st.op, ast.Add):
+            key = ast.unparse(st.target)
+            if key not in sym:
+                raise Untranslatable(f"`{key} += …` on something that is not an input")
+            v, vt = value_of(st.value)
+            if vt not in ("Nat", "Lit") or sym[key][1] != "Nat":
+                raise Untranslatable(f"`{key} += …` is not over naturals")
+            sym[key] = (f"({sym[key][0]} + {v})", "Nat")
+            src.append(line[:100])
+        elif isinstance(st, ast.Expr) and isinstance(st.value, ast.Call):
+            note_slices(st.value)
+            src.append(line[:60] + " …")
+        else:
+            raise Untranslatable(f"statement {type(st).__name__} at line {st.lineno} of the loop body")
+    if not slices:
+        raise Untranslatable("the loop body cuts no slice")
+    if len(set(slices)) != 1:
+        raise Untranslatable(f"per-row arrays are cut with different bounds: {sorted(set(slices))}")
+    lo, hi = slices[0]
+    outs = {"Init": (e0, "Nat"), "Lo": (lo, "Nat"), "Hi": (hi, "Nat"), "Next": sym[ctr]}
+    for oname, key in spec["outputs"].items():
+        outs[oname] = sym[key]
+    if any(t not in ("Nat", "Lit") for _, t in outs.values()):
+        raise Untranslatable("an output is not a natural number")
+    return outs, loop.lineno, f"{ctr} = {ast.unparse(init)}; for {ast.unparse(loop.target)} in " \
+        f"{ast.unparse(loop.iter)[:60]}: " + "; ".join(src) + f"  [{len(slices)} slices, all [{lo}:{hi}]]"
+
+
 FALLBACK = {"Nat": "0", "E": "E.bad", "Bool": "false", "Option E": "none", "Option Nat": "none"}
 
 
@@ -369,6 +473,23 @@ def translate(repo, out_path):
         recs.append({"name": spec["prefix"], "file": spec["file"], "func": spec["func"], "line": line, "ok": ok,
                      "why": why, "python": src[:400],
                      "lean": "; ".join(f"{o} := {outs[o][0]}" for o in want)})
+    for spec in LOOP_SPECS:
+        names = ["Init", "Lo", "Hi", "Next"] + list(spec["outputs"])
+        try:
+            outs, line, src = loop_step(repo, spec)
+            ok, why = True, ""
+        except (Untranslatable, SyntaxError, OSError, StopIteration, KeyError, AttributeError) as e:
+            outs, line, src, ok, why = {o: ("0", "Nat") for o in names}, 0, "", False, f"{type(e).__name__}: {e}"
+        lines.append(f"/-- `{spec['file']}:{spec['func']}`" + (f" line {line}, one iteration of the dispatch loop: "
+                                                                f"`{src[:500]}`" if ok else
+                                                                f" -- TRANSLATION FAILED: {why}") + " -/")
+        binder = " ".join(f"({v} : {t})" for v, t in spec["vars"])
+        for oname in names:
+            e, _ = outs[oname]
+            lines.append(f"def {spec['prefix']}{oname}" + ("" if oname == "Init" else f" {binder}") + f" : Nat :=\n  {e}")
+        lines.append("")
+        recs.append({"name": spec["prefix"], "file": spec["file"], "func": spec["func"], "line": line, "ok": ok,
+                     "why": why, "python": src[:400], "lean": "; ".join(f"{o} := {outs[o][0]}" for o in names)})
     lines.append("end Pyribs.GenC")
     text = "\n".join(lines) + "\n"
     old = open(out_path).read() if os.path.exists(out_path) else None
